@@ -34,6 +34,7 @@ func (e event) line(id string) string {
 type inst struct {
 	slot, port int
 	coord      *pdnode_coord.PDCoordinator
+	lcoord     *pdnode_coord.PDCoordinator // the learner placement driver, same register
 	reg        *memRegister
 	tab        *stubTable
 	monitor    chan struct{}
@@ -48,6 +49,20 @@ func (in *inst) nodeID(k int) string {
 	return fmt.Sprintf("%d:%s::%d:%d:datanode", k, nodeIP(in.slot, k), 6000+k, in.port)
 }
 func kOf(nid string) int { return int(cluster.ExtractRegIDFromGenID(nid)) }
+
+const (
+	learnerRole = "role_log_syncer"
+	otherRole   = "role_other"
+)
+
+// learner nodes have numbers >= 100
+func (in *inst) learnerID(k int, same bool) string {
+	role := learnerRole
+	if !same {
+		role = otherRole
+	}
+	return fmt.Sprintf("%d:%s::%d:%d:datanode-learner-%s", k, nodeIP(in.slot, k), 6000+k, in.port, role)
+}
 
 func ints(s string) []int {
 	if s == "" || s == "-" {
@@ -121,7 +136,11 @@ func (in *inst) infoStr(p *cluster.PartitionReplicaInfo) string {
 		}
 		return strings.Join(l, ",")
 	}
-	return fmt.Sprintf("n=%s i=%s r=%s m=%d", joinInts(nodes), trim(ids), trim(rms), p.MaxRaftID)
+	var lr []int
+	for _, n := range p.LearnerNodes[learnerRole] {
+		lr = append(lr, kOf(n))
+	}
+	return fmt.Sprintf("n=%s i=%s r=%s m=%d l=%s", joinInts(nodes), trim(ids), trim(rms), p.MaxRaftID, joinInts(lr))
 }
 
 func errName(e *cluster.CoordErr) string {
@@ -153,8 +172,18 @@ func errName(e *cluster.CoordErr) string {
 	return "other:" + e.ErrMsg
 }
 
+func lerrName(e *cluster.CoordErr) string {
+	if e == nil {
+		return "lok"
+	}
+	if e.ErrType == cluster.CoordRegisterErr {
+		return "lregerr"
+	}
+	return "lerr"
+}
+
 func newInst(slot, port int, e event) *inst {
-	// I  replica  nodes  ids  removings  maxid  auto  balancever
+	// I  replica  nodes  ids  removings  maxid  auto  balancever  learners
 	in := &inst{slot: slot, port: port, t0: time.Now(), waiting: map[string]map[int]time.Time{}}
 	in.replica, _ = strconv.Atoi(e.f[0])
 	var info cluster.PartitionReplicaInfo
@@ -181,6 +210,19 @@ func newInst(slot, port int, e event) *inst {
 		}
 	}
 	info.MaxRaftID, _ = strconv.ParseInt(e.f[4], 10, 64)
+	if len(e.f) > 7 && e.f[7] != "-" && e.f[7] != "" {
+		info.LearnerNodes = map[string][]string{}
+		for _, k := range ints(e.f[7]) {
+			info.LearnerNodes[learnerRole] = append(info.LearnerNodes[learnerRole], in.learnerID(k, true))
+		}
+		// their ids are among e.f[2] (keyed by the learner's number)
+		for n, id := range info.RaftIDs {
+			if kOf(n) >= 100 {
+				delete(info.RaftIDs, n)
+				info.RaftIDs[in.learnerID(kOf(n), true)] = id
+			}
+		}
+	}
 	in.reg = newMemRegister(nsName, in.replica, info)
 	in.tab = &stubTable{ans: map[int]answer{}}
 	stubsMu.Lock()
@@ -189,12 +231,20 @@ func newInst(slot, port int, e event) *inst {
 	me := &cluster.NodeInfo{NodeIP: "127.0.0.1", HttpPort: "1", RedisPort: "2", RegID: 9999}
 	opts := &cluster.Options{AutoBalanceAndMigrate: e.f[5] == "1", BalanceStart: 0, BalanceEnd: 24, BalanceVer: e.f[6]}
 	in.coord = pdnode_coord.VerifNewPDCoordinator("verif-cluster", me, opts, in.reg)
+	lme := &cluster.NodeInfo{NodeIP: "127.0.0.1", HttpPort: "3", RedisPort: "4", RegID: 9998, LearnerRole: learnerRole}
+	in.lcoord = pdnode_coord.VerifNewPDCoordinator("verif-cluster", lme, opts, in.reg)
 	in.monitor = make(chan struct{})
-	in.wg.Add(1)
+	in.wg.Add(2)
 	go func() {
 		defer in.wg.Done()
 		in.coord.VerifHandleDataNodes(in.monitor, true)
 	}()
+	<-in.reg.watchReady // keep the watcher order fixed: main driver first
+	go func() {
+		defer in.wg.Done()
+		in.lcoord.VerifHandleDataNodes(in.monitor, false)
+	}()
+	<-in.reg.watchReady
 	return in
 }
 
@@ -269,8 +319,20 @@ func (in *inst) stateStr() string {
 		}
 		return 0
 	}
-	return fmt.Sprintf("reg[%s e=%d] wait=%s un=%d au=%d ne=%d st=%d dn=%s rn=%s fail=%d", in.infoStr(&info), ep, w,
-		b(s.Unstable), b(s.AutoBalance), s.NodesEpoch, s.StableNodeNum, joinInts(dn), rns, fl)
+	var ln []int
+	for _, n := range in.lcoord.VerifState().LearnerNodes {
+		ln = append(ln, kOf(n))
+	}
+	sort.Ints(ln)
+	ls := "-"
+	if v, err := in.reg.GetKV("placedriver:learner:need_start_learner:" + learnerRole); err == nil {
+		ls = "0"
+		if v == "true" {
+			ls = "1"
+		}
+	}
+	return fmt.Sprintf("reg[%s e=%d] wait=%s un=%d au=%d ne=%d st=%d dn=%s rn=%s fail=%d ln=%s ls=%s", in.infoStr(&info), ep, w,
+		b(s.Unstable), b(s.AutoBalance), s.NodesEpoch, s.StableNodeNum, joinInts(dn), rns, fl, joinInts(ln), ls)
 }
 
 func (in *inst) writesStr() string {
@@ -306,11 +368,20 @@ func (in *inst) exec(e *event) string {
 				l = append(l, cluster.NodeInfo{RegID: uint64(k), ID: in.nodeID(k), NodeIP: nodeIP(in.slot, k),
 					HttpPort: strconv.Itoa(in.port), RedisPort: strconv.Itoa(6000 + k)})
 			}
-			// delivered twice: when the second delivery is taken the first has been fully processed
-			for i := 0; i < 2; i++ {
-				in.reg.feed <- l
-				<-in.reg.ack
+			// learner nodes: "k" (this learner role) or "k!" (another role)
+			if len(e.f) > 1 && e.f[1] != "-" && e.f[1] != "" {
+				for _, p := range strings.Split(e.f[1], ",") {
+					same := !strings.HasSuffix(p, "!")
+					k, _ := strconv.Atoi(strings.TrimSuffix(p, "!"))
+					role := learnerRole
+					if !same {
+						role = otherRole
+					}
+					l = append(l, cluster.NodeInfo{RegID: uint64(k), ID: in.learnerID(k, same), NodeIP: nodeIP(in.slot, k),
+						HttpPort: strconv.Itoa(in.port), RedisPort: strconv.Itoa(6000 + k), LearnerRole: role})
+				}
 			}
+			in.reg.deliver(l)
 			ret = fmt.Sprint(len(in.coord.VerifDrainCheckChan()) > 0)
 		case "A":
 			in.tab.mu.Lock()
@@ -409,6 +480,29 @@ func (in *inst) exec(e *event) string {
 				closed := make(chan struct{})
 				close(closed)
 				in.coord.VerifProcessRemovingNodes(closed, st.RemovingNodes)
+			}
+		case "LC":
+			in.lcoord.VerifDoCheckNamespacesForLearner(in.monitor)
+		case "LS":
+			in.lcoord.SwitchStartLearner(e.f[0] == "1")
+		case "LA":
+			k, _ := strconv.Atoi(e.f[0])
+			ret = lerrName(in.lcoord.VerifAddNsLearnerToNode(in.freshInfo(), in.learnerID(k, true)))
+		case "LL":
+			k, _ := strconv.Atoi(e.f[0])
+			ret = lerrName(in.lcoord.VerifUpdateNsLearnerLeader(in.freshInfo(), in.learnerID(k, true)))
+		case "LR":
+			k, _ := strconv.Atoi(e.f[0])
+			if err := in.lcoord.VerifRemoveNsLearnerFromNode(nsName, 0, in.learnerID(k, true), e.f[1] == "1"); err != nil {
+				ret = "lerr"
+			} else {
+				ret = "lok"
+			}
+		case "LX":
+			if err := in.lcoord.VerifRemoveNsAllLearners(in.freshInfo()); err != nil {
+				ret = "lerr"
+			} else {
+				ret = "lok"
 			}
 		default:
 			panic("unknown event kind " + e.kind)
